@@ -161,3 +161,30 @@ fn text_families_are_valid_utf8_natively() {
         }
     }
 }
+
+#[test]
+fn valid_utf8_agrees_with_std() {
+    // exhaustive over all 1- and 2-byte inputs, all 3-byte inputs with a stride, and 4-byte inputs
+    // around every class boundary
+    for a in 0..=255u8 {
+        assert_eq!(valid_utf8(&[a]), std::str::from_utf8(&[a]).is_ok());
+        for b in 0..=255u8 {
+            assert_eq!(valid_utf8(&[a, b]), std::str::from_utf8(&[a, b]).is_ok(), "{a:x} {b:x}");
+        }
+    }
+    let edges: Vec<u8> = vec![0x00, 0x41, 0x7F, 0x80, 0x8F, 0x90, 0x9F, 0xA0, 0xBF, 0xC0, 0xC1, 0xC2, 0xDF, 0xE0, 0xE1, 0xEC, 0xED, 0xEE, 0xEF, 0xF0, 0xF1, 0xF3, 0xF4, 0xF5, 0xFF];
+    for &a in &edges {
+        for &b in &edges {
+            for &c in &edges {
+                assert_eq!(valid_utf8(&[a, b, c]), std::str::from_utf8(&[a, b, c]).is_ok(), "{a:x} {b:x} {c:x}");
+                for &d in &edges {
+                    assert_eq!(valid_utf8(&[a, b, c, d]), std::str::from_utf8(&[a, b, c, d]).is_ok(), "{a:x} {b:x} {c:x} {d:x}");
+                }
+            }
+        }
+    }
+    for x in (0..(1u32 << 24)).step_by(7) {
+        let v = [(x >> 16) as u8, (x >> 8) as u8, x as u8];
+        assert_eq!(valid_utf8(&v), std::str::from_utf8(&v).is_ok());
+    }
+}
